@@ -428,7 +428,7 @@ fn failing_splice(ctx: &mut Ctx) {
                                 ctx.next_id = 1;
                                 let ids: Vec<u64> = (0..len).map(|_| ctx.fresh()).collect();
                                 let src: Vec<u64> = (0..n).map(|_| ctx.fresh()).collect();
-                                let pulls = if gap > 0 && ctx.rng.chance(1, 4) { 1 } else { 0 };
+                                let pulls: Vec<u8> = if gap > 0 && ctx.rng.chance(1, 4) { vec![if ctx.rng.chance(1, 2) { b'f' } else { b'b' }] } else { vec![] };
                                 ctx.count(if lie >= 1usize << 62 {
                                     if e == len { "failing-splice:overflow in extend/reserve" } else if n >= gap { "failing-splice:overflow in move_tail (tail must survive)" } else { "failing-splice:huge hint, source dry inside the range" }
                                 } else {
